@@ -275,9 +275,10 @@ const c16BootOTP = "bootstrap-otp-value"
 const c16TotpSecret = "JBSWY3DPEHPK3PXPJBSWY3DPEHPK3PXP"
 
 type c16World struct {
-	env   *verifEnv
-	token *c16Token
-	admin *http.Cookie
+	env      *verifEnv
+	token    *c16Token
+	admin    *http.Cookie
+	signBody []byte // the token's answer to alice's outstanding U2F challenge
 }
 
 func (cw *c16World) reset(t *testing.T) {
@@ -313,6 +314,21 @@ func (cw *c16World) reset(t *testing.T) {
 		delete(st.totpLocalRateLimit, k)
 	}
 	st.totpLocalTateLimitMutex.Unlock()
+	rq := verifNewRequest("GET", u2fSignRequestPath, nil)
+	rq.AddCookie(cw.userCookie(c16Alice, AuthTypePassword))
+	rr, _ := cw.env.serve(rq)
+	if rr.Code != 200 {
+		t.Fatalf("sign request refused: %d %s", rr.Code, rr.Body.String())
+	}
+	cw.signBody = cw.token.sign(rr.Body.Bytes())
+}
+
+func (cw *c16World) challenge(u string) bool {
+	st := cw.env.state
+	st.Mutex.Lock()
+	defer st.Mutex.Unlock()
+	_, ok := st.localAuthData[u]
+	return ok
 }
 
 // the projection the model speaks about
@@ -486,6 +502,19 @@ func c16Handlers() map[string]c16Handler {
 			return r
 		}},
 	}
+	hs = append(hs,
+		c16Handler{"u2fsign-alice", c16Alice, func(int64) string { return "HU2fSignResp 1 3" }, func(cw *c16World) *http.Request {
+			r := verifNewRequest("POST", u2fSignResponsePath, nil)
+			r.Body = ioutil.NopCloser(bytes.NewReader(cw.signBody))
+			r.Header.Set("Referer", "https://keymaster.example/")
+			r.AddCookie(cw.userCookie(c16Alice, AuthTypePassword))
+			return r
+		}},
+		c16Handler{"u2fsignreq-alice", c16Alice, func(int64) string { return "HU2fSignReq 1 4" }, func(cw *c16World) *http.Request {
+			r := verifNewRequest("GET", u2fSignRequestPath, nil)
+			r.AddCookie(cw.userCookie(c16Alice, AuthTypePassword))
+			return r
+		}})
 	m := map[string]c16Handler{}
 	for _, h := range hs {
 		m[h.name] = h
@@ -501,19 +530,22 @@ func c16Status(code int) int {
 }
 
 type c16Outcome struct {
-	resp     []int
-	profiles [3]c16Profile
+	resp       []int
+	profiles   [3]c16Profile
+	challenges [3]bool
 }
 
 func (o c16Outcome) key() string {
-	return fmt.Sprintf("%v|%v|%v|%v", o.resp, o.profiles[0], o.profiles[1], o.profiles[2])
+	return fmt.Sprintf("%v|%v|%v|%v|%v", o.resp, o.profiles[0], o.profiles[1], o.profiles[2], o.challenges)
 }
 
 func c16Shape(trace []vStep, a, b int) string {
 	var sb strings.Builder
 	for _, s := range trace {
 		if s.thread == a || s.thread == b {
-			sb.WriteByte(map[string]byte{"Load": 'L', "Save": 'S', "Del": 'D', "Lock": 'K'}[s.point])
+			if c, ok := map[string]byte{"Load": 'L', "Save": 'S', "Del": 'D'}[s.point]; ok {
+				sb.WriteByte(c)
+			}
 		}
 	}
 	return sb.String()
@@ -579,16 +611,37 @@ func TestVerif_C16(t *testing.T) {
 		{"bootauth-bob", "bootauth-bob"}, {"bootauth-bob", "bootauth-bob-wrong"}, {"bootauth-bob", "genboot-bob"}, {"deluser-bob", "bootauth-bob"}, {"genboot-bob", "genboot-bob"},
 		{"totp-alice", "totp-alice"}, {"totp-alice", "totp-alice-bad"}, {"totp-alice", "disable1"}, {"totp-alice", "rename1a"},
 		{"disable1", "bootauth-bob"},
+		{"u2fsign-alice", "u2fsign-alice"}, {"u2fsignreq-alice", "u2fsign-alice"}, {"u2fsign-alice", "disable1"}, {"deluser-alice", "u2fsign-alice"}, {"u2fsignreq-alice", "u2fsignreq-alice"},
+	}
+	triples := [][]string{
+		{"disable1", "rename1a", "rename2b"}, {"disable1", "enable1", "delete2"}, {"deluser-alice", "disable1", "rename2b"},
+		{"bootauth-bob", "bootauth-bob", "bootauth-bob"}, {"bootauth-bob", "genboot-bob", "bootauth-bob"},
+		{"totp-alice", "totp-alice", "disable1"}, {"totp-alice", "totp-alice", "totp-alice"},
+		{"adduser-carol", "deluser-carol", "adduser-carol"}, {"delete1", "delete2", "rename1a"},
+	}
+	// every pair that occurs inside a triple is enumerated as a pair too (also in the quick tier),
+	// so that the pairwise keys of the triples are those of the pairs
+	havePair := map[string]bool{}
+	for _, p := range pairs {
+		q := append([]string{}, p...)
+		sort.Strings(q)
+		havePair[strings.Join(q, "|")] = true
+	}
+	for _, tr := range triples {
+		for a := 0; a < len(tr); a++ {
+			for b := a + 1; b < len(tr); b++ {
+				q := []string{tr[a], tr[b]}
+				sort.Strings(q)
+				if !havePair[strings.Join(q, "|")] {
+					havePair[strings.Join(q, "|")] = true
+					pairs = append(pairs, []string{tr[a], tr[b]})
+				}
+			}
+		}
 	}
 	var groups [][]string
 	groups = append(groups, pairs...)
 	if verifThorough() {
-		triples := [][]string{
-			{"disable1", "rename1a", "rename2b"}, {"disable1", "enable1", "delete2"}, {"deluser-alice", "disable1", "rename2b"},
-			{"bootauth-bob", "bootauth-bob", "bootauth-bob"}, {"bootauth-bob", "genboot-bob", "bootauth-bob"},
-			{"totp-alice", "totp-alice", "disable1"}, {"totp-alice", "totp-alice", "totp-alice"},
-			{"adduser-carol", "deluser-carol", "adduser-carol"}, {"delete1", "delete2", "rename1a"},
-		}
 		groups = append(groups, triples...)
 	}
 	var cases, idx []string
@@ -629,6 +682,7 @@ func TestVerif_C16(t *testing.T) {
 			r.trace = trace
 			for ui, u := range users {
 				r.outcome.profiles[ui] = cw.profile(u)
+				r.outcome.challenges[ui] = cw.challenge(u)
 			}
 			return true
 		}, limit)
@@ -692,8 +746,16 @@ func TestVerif_C16(t *testing.T) {
 			for ui := range users {
 				profs = append(profs, r.outcome.profiles[ui].coq(r.counter))
 			}
-			cases = append(cases, fmt.Sprintf("([%s], [%s]%%nat, ([%s], [%s], [None; None; None]))", strings.Join(hl, "; "), strings.Join(sched, "; "), strings.Join(resp, "; "), strings.Join(profs, "; ")))
-			idx = append(idx, fmt.Sprintf("requests=%v schedule=%s points=%s answers=%v alice=%v bob=%v carol=%v", g, strings.Join(sched, ""), c16Shape(r.trace, -1, -1)+c16AllPoints(r.trace), r.outcome.resp, r.outcome.profiles[0], r.outcome.profiles[1], r.outcome.profiles[2]))
+			var chals []string
+			for ui := range users {
+				if r.outcome.challenges[ui] {
+					chals = append(chals, "Some 1")
+				} else {
+					chals = append(chals, "None")
+				}
+			}
+			cases = append(cases, fmt.Sprintf("([%s], [%s]%%nat, ([%s], [%s], [%s]))", strings.Join(hl, "; "), strings.Join(sched, "; "), strings.Join(resp, "; "), strings.Join(profs, "; "), strings.Join(chals, "; ")))
+			idx = append(idx, fmt.Sprintf("requests=%v schedule=%s points=%s answers=%v alice=%v bob=%v carol=%v challenges=%v", g, strings.Join(sched, ""), c16Shape(r.trace, -1, -1)+c16AllPoints(r.trace), r.outcome.resp, r.outcome.profiles[0], r.outcome.profiles[1], r.outcome.profiles[2], r.outcome.challenges))
 		}
 		res.bump("groups")
 		if len(runs) > 0 {
@@ -710,7 +772,7 @@ func TestVerif_C16(t *testing.T) {
 	sb.WriteString("Definition db0 : db := [(1, {| toks := [tk 1 11; tk 2 12]; botp := None; last_totp := 0 |}); (2, {| toks := []; botp := Some 7; last_totp := 0 |})].\n")
 	sb.WriteString("(* (requests, schedule at parking-point granularity, observed (answers, final profiles of users 1 2 3, -)) *)\n")
 	sb.WriteString("Definition cases : list (list hid * list nat * (list (option N) * list (option profile) * list (option N))) := [\n " + strings.Join(cases, ";\n ") + "].\n")
-	sb.WriteString("Definition c16_bad (c : list hid * list nat * (list (option N) * list (option profile) * list (option N))) : bool :=\n  let '(hs, sched, obs) := c in\n  negb (outcome_eqb (outcome [1; 2; 3] (run_seg (init_world db0 [] (map handler hs)) sched)) obs).\n")
+	sb.WriteString("Definition c16_bad (c : list hid * list nat * (list (option N) * list (option profile) * list (option N))) : bool :=\n  let '(hs, sched, obs) := c in\n  negb (outcome_eqb (outcome [1; 2; 3] (run_seg (init_world db0 [(M_localAuth, 1, 3)] (map handler hs)) sched)) obs).\n")
 	sb.WriteString("Definition c16_mismatches := Eval vm_compute in mismatches c16_bad cases.\nPrint c16_mismatches.\nDefinition c16_ncases := Eval vm_compute in length cases.\nPrint c16_ncases.\n")
 	if err := ioutil.WriteFile(filepath.Join(verifOut(), "CasesC16.v"), []byte(sb.String()), 0644); err != nil {
 		t.Fatal(err)
@@ -756,16 +818,8 @@ func TestVerif_C16Race(t *testing.T) {
 	for time.Now().Before(deadline) {
 		round++
 		cw.reset(t)
-		// a fresh U2F challenge for alice, answered twice at the same moment
-		rq := verifNewRequest("GET", u2fSignRequestPath, nil)
-		rq.AddCookie(cw.userCookie(c16Alice, AuthTypePassword))
-		rr, _ := env.serve(rq)
-		var signBody []byte
-		if rr.Code == 200 {
-			signBody = cw.token.sign(rr.Body.Bytes())
-		} else {
-			res.hit(verifHit{Key: "C16:harness:signrequest", Oracle: "harness", What: fmt.Sprintf("sign request refused: %d %s", rr.Code, rr.Body.String()), Case: round})
-		}
+		// reset left a fresh U2F challenge for alice: it is answered three times at the same moment
+		signBody := cw.signBody
 		var wg sync.WaitGroup
 		start := make(chan bool)
 		n := 24
